@@ -70,6 +70,16 @@ Proof.
   - eexists. split; [|reflexivity]. unfold ex_dir. cbn [map]. repeat constructor.
 Qed.
 
+(* corollary: two different directories never share an encoding (what a reader decodes is what was written,
+   so two writers that produce the same bytes wrote the same directory) *)
+Theorem C03_serialize_injective : forall es1 es2, Forall entry_ok es1 -> Forall entry_ok es2 ->
+  N.of_nat (length es1) < 2^64 -> N.of_nat (length es2) < 2^64 ->
+  serialize_entries es1 = serialize_entries es2 -> es1 = es2.
+Proof.
+  intros es1 es2 H1 H2 L1 L2 E.
+  rewrite <- (C03_roundtrip_raw es1 [] H1 L1), <- (C03_roundtrip_raw es2 [] H2 L2), E. reflexivity.
+Qed.
+
 Print Assumptions C03_varint.
 Print Assumptions C03_roundtrip_raw.
 Print Assumptions C03_roundtrip_checked.
@@ -77,3 +87,4 @@ Print Assumptions C03_count_beyond_input_rejected.
 Print Assumptions C03_roundtrip.
 Print Assumptions C03_encoder_is_spec.
 Print Assumptions C03_decoder_reads_spec.
+Print Assumptions C03_serialize_injective.
